@@ -4,7 +4,7 @@ let () =
   let stream = Sys.argv.(1) in
   let prop = if Array.length Sys.argv > 2 then Sys.argv.(2) else "" in
   let f = try List.assoc stream !Streams.table with Not_found -> (prerr_endline ("unknown stream " ^ stream); exit 2) in
-  let proj = try List.assoc stream !Streams.projections with Not_found -> (fun _ x -> x) in
+  let proj = try List.assoc stream !Streams.projections with Not_found -> (fun _ _ x -> x) in
   (try
     while true do
       let line = input_line stdin in
@@ -13,8 +13,8 @@ let () =
           (try
             let i = Sx.parse inp and o = Sx.parse obs in
             let r = f prop i o in
-            let ms = Sx.to_string (proj prop r.Streams.model) in
-            let mism = ms <> Sx.to_string (proj prop o) in
+            let ms = Sx.to_string (proj prop i r.Streams.model) in
+            let mism = ms <> Sx.to_string (proj prop i o) in
             let status = match r.Streams.spec_ok, mism with
               | true, false -> "ok" | true, true -> "mismatch"
               | false, false -> "specfail" | false, true -> "specfail+mismatch" in
